@@ -30,9 +30,12 @@ def gen(rng: random.Random, tier: str):
         rows = [[100 + u, 1000 + i, float(rng.choice([1, 2, 3, 4, 5]))] for u in range(nu) for i in range(ni) if rng.random() < 0.5]
         for name in SCORERS:
             queries = []
-            for _q in range({"quick": 6, "thorough": 12}[tier]):
-                queries.append({"user": rng.choice([100 + u for u in range(nu)] + [999]), "hist": rng.choice(["train", "none", "custom", "custom-unknown", "empty"]),
-                                "seed": rng.randrange(10**6), "n_known": rng.randint(0, ni), "unknown_items": rng.choice([0, 1, 2])})
+            # every scorer meets every (candidate form × number of unknown candidates) combination and every history form at least once
+            HISTS = ["train", "custom-long", "none", "custom", "train", "custom-unknown", "only-unknown", "empty"]; off = rng.randrange(len(HISTS))
+            for _q in range({"quick": 12, "thorough": 18}[tier]):
+                queries.append({"user": rng.choice([100 + u for u in range(nu)] + [999]), "hist": HISTS[(_q + off) % len(HISTS)],
+                                "seed": rng.randrange(10**6), "n_known": rng.randint(max(0, ni - 4), ni) if _q % 2 else rng.randint(0, ni), "unknown_items": [1, 0, 2][(_q // 3) % 3],
+                                "cand_form": ["ids+vocab", "ids", "nums+vocab"][_q % 3], "unknown_first": _q % 2 == 0})
             yield {"scorer": name, "rows": rows, "train_seed": rng.randrange(10**6), "queries": queries}
 
 _cache = {}
@@ -55,26 +58,39 @@ def run(case: dict, lean: Lean) -> Outcome:
     from lenskit.data import ItemList
     from lenskit.data.query import RecQuery
     name = case["scorer"]; ds, m = _trained(case)
-    V = [int(x) for x in ds.items.ids()]; failed = []; classes = {"scorer:" + name}; keys = set(); n_model = 0
+    V = [int(x) for x in ds.items.ids()]; Vpos = {i: k for k, i in enumerate(V)}; failed = []; classes = {"scorer:" + name}; keys = set(); n_model = 0
     call = (lambda qy, il: m(il)) if name == "pop" else (lambda qy, il: m(qy, il))
     for qd in case["queries"]:
         r = random.Random(qd["seed"]); u = qd["user"]; hk = qd["hist"]
         if hk == "train": ui = ds.user_row(u) if u != 999 else None
         elif hk == "custom": hs = r.sample(V, min(3, len(V))); ui = ItemList(item_ids=hs, rating=[4.0, 2.0, 5.0][: len(hs)])
+        elif hk == "custom-long": hs = r.sample(V, min(6, len(V))); ui = ItemList(item_ids=hs, rating=[4.0, 2.0, 5.0, 1.0, 3.0, 4.5][: len(hs)])
         elif hk == "custom-unknown": hs = r.sample(V, min(2, len(V))) + [7777]; ui = ItemList(item_ids=hs, rating=[4.0, 2.0, 5.0][: len(hs)])
+        elif hk == "only-unknown": hs = [7777, 7778]; ui = ItemList(item_ids=hs, rating=[4.0, 2.0])
         elif hk == "empty": ui = ItemList(item_ids=np.array([], dtype="i8"), rating=np.array([], dtype="f8"))
         else: ui = None
         qy = RecQuery(user_id=u, user_items=ui)
         base = r.sample(V, min(qd["n_known"], len(V))) + [8888, 9999][: qd["unknown_items"]]
-        r.shuffle(base); perm = base[:]; r.shuffle(perm); sub = base[: max(0, len(base) // 2)]
+        r.shuffle(base)
+        if qd.get("unknown_first"): base = [i for i in base if i not in Vpos] + [i for i in base if i in Vpos]     # unknown candidates ahead of the known ones
+        perm = base[:]; r.shuffle(perm); sub = base[: max(0, len(base) // 2)]
         classes.add("history:" + hk)
         if u == 999: classes.add("unknown user")
         if qd["unknown_items"]: classes.add("unknown candidate")
         if not base: classes.add("empty candidates")
+        cf = qd.get("cand_form", "ids"); classes.add("candidates as " + cf)
+        def mk(ids_, **kw):
+            # candidate lists as callers build them: bare identifiers, identifiers bound to the training vocabulary, or numbers + vocabulary
+            if cf == "ids+vocab": return ItemList(item_ids=np.array(ids_, dtype="i8"), vocabulary=ds.items, **kw)
+            if cf == "nums+vocab" and all(i in Vpos for i in ids_): return ItemList(item_nums=np.array([Vpos[i] for i in ids_], dtype="i4"), vocabulary=ds.items, **kw)
+            return ItemList(item_ids=np.array(ids_, dtype="i8"), **kw)
+        def look(il): return ([int(i) for i in il.ids()], [int(x) for x in il.numbers(vocabulary=ds.items, missing="negative")], None if il.field("extra") is None else il.field("extra").tolist())
         try:
             tag = np.arange(len(base)) * 10
-            o1 = call(qy, ItemList(item_ids=np.array(base, dtype="i8"), extra=tag)); o2 = call(qy, ItemList(item_ids=np.array(perm, dtype="i8")))
-            o3 = call(qy, ItemList(item_ids=np.array(sub, dtype="i8"))); o4 = call(qy, ItemList(item_ids=np.array(base, dtype="i8"), extra=tag))
+            in1 = mk(base, extra=tag); before = look(in1)
+            o1 = call(qy, in1); o2 = call(qy, mk(perm))
+            o3 = call(qy, mk(sub)); o4 = call(qy, in1)          # the same list object again: a scorer must not have altered it
+            if look(in1) != before: failed.append(f"{hk}: the scorer changed the candidate list it was given"); keys.add("?input-mutated")
         except Exception as e:
             msg = f"{hk} history, user {u}: raised {type(e).__name__}"
             failed.append(msg)
